@@ -53,3 +53,18 @@ func vs_typeChanged(a, b *spec.SchemaProps) bool {
 func vs_descriptionCode(c SpecChangeCode) bool {
 	return c == AddedDescripton || c == DeletedDescripton || c == ChangedDescripton
 }
+
+// vs_hasDiffCode: some entry of ds at an index in [from, from+8) carries change code c.
+func vs_hasDiffCode(ds SpecDifferences, from int, c SpecChangeCode) bool {
+	return vs_dat(ds, from, c) || vs_dat(ds, from+1, c) || vs_dat(ds, from+2, c) || vs_dat(ds, from+3, c) ||
+		vs_dat(ds, from+4, c) || vs_dat(ds, from+5, c) || vs_dat(ds, from+6, c) || vs_dat(ds, from+7, c)
+}
+
+func vs_dat(ds SpecDifferences, i int, c SpecChangeCode) bool {
+	return 0 <= i && i < len(ds) && ds[i].Code == c
+}
+
+// vs_noNone: no entry is the NoChangeDetected placeholder.
+func vs_noNone(ds []TypeDiff) bool {
+	return vs_all(func(k int) bool { return 0 <= k && k < len(ds) ==> ds[k].Change != NoChangeDetected })
+}
